@@ -13,7 +13,8 @@ UNDER these two contracts the real wrapper code is executed symbolically and pro
     fs_diagonalize_symmetric<double,double,4>   m == u^T diag(s) u,       0 <= s_0 <= ... (Takagi; phase i for negative eigenvalues), u: same
 Reproduction is a ring identity in the solver's output; "unitary" is shown structurally: the Gram matrix of each returned factor equals a
 simultaneous row/column re-indexing (possibly transposed/conjugated) of the Gram matrix of the solver's factor, which is the identity by assumption.
-NOT decided: Eigen's solvers themselves, the error-bound outputs (disna), floating-point accuracy.
+Error bounds (C12.errbd.*): the real disna and *_errbd layers give value bound == EPS ||m||_2 >= 0 and vector bounds in [0,1] on every path.
+NOT decided: Eigen's solvers themselves, floating-point accuracy.
 """
 import itertools, z3
 from fractions import Fraction as Fr
@@ -370,3 +371,201 @@ def fidelity(tier, seed):
         return {'ok': not bad and total > 0, 'cases': len(cases), 'compared_bit_exact': exact, 'entries': total, 'mismatches': bad[:5]}
     finally:
         native.cleanup(wd)
+
+# ------------------------------------------------------------------------------------------------ error bounds (disna)
+EPS_DBL = Fr(1, 2**52)
+
+def _errbd_claims(ctx, tag, pre_pc, scalar_bound, vector_bounds, norm):
+    """non-negative, finite (vector bounds <= 1: EPS ||m|| / max(gap, EPS ||m||, SAFMIN)), and the scalar bound is the documented EPS ||m||_2"""
+    ctx.prove(tag + '.value_bound_is_eps_norm', pre_pc, z3real(scalar_bound) == to_z3(EPS_DBL) * norm, check_vacuity=False)
+    ctx.prove(tag + '.value_bound_nonnegative', pre_pc, z3real(scalar_bound) >= 0, check_vacuity=False)
+    for name, vec in vector_bounds:
+        for i in range(vec.r):
+            e = z3real(vec.get(i))
+            ctx.prove('%s.%s[%d].in_[0,1]' % (tag, name, i), pre_pc, z3.And(e >= 0, e <= 1), check_vacuity=False, tactics=('default', 'nlsat'))
+
+def make_herm_errbd(N):
+    @obligation('C12.errbd.fs_diagonalize_hermitian.%dx%d' % (N, N), fns=[(LA, 'fs_diagonalize_hermitian'), (LA, 'fs_diagonalize_hermitian_errbd'), (LA, 'diagonalize_hermitian_errbd'), (LA, 'disna')], replay=lambda m_, wd: errbd_replay(m_, wd))
+    def ob(ctx):
+        """requires (contract of hermitian_eigen): W ascending (any signs, ties, zeros).  ensures on every path: w_errbd == EPS max_i |W_i| >= 0 (the documented EPSMCH ||m||_2),
+        every z_errbd(i) is in [0, 1] -- finite and non-negative: the real disna (LAPACK DDISNA port) keeps every reciprocal condition number >= max(EPS ||m||, SAFMIN) > 0"""
+        Z, W = rm('Z', N, N), [z3.Real('W%d' % i) for i in range(N)]
+        pre = [W[i] <= W[i + 1] for i in range(N - 1)]
+        m = mat_mul(mat_mul(Z, diag(W, False)), Z.T())
+        it = Interp(ctx.w, mode='sym', stubs={'hermitian_eigen': herm_stub(Z, W)}, assumptions=pre, div_sides=True)
+        fds = [f for f in ctx.w.find('fs_diagonalize_hermitian', LA) if len(f.params) == 5]
+        if len(fds) != 1:
+            ctx.record('extraction', ERROR, 'B', 0, '%d overloads of fs_diagonalize_hermitian with error bounds' % len(fds))
+            return
+        def thunk():
+            w = Mat(N, 1, [[0] for _ in range(N)], 'array', False)
+            z = rm('zz', N, N)
+            ze = Mat(N, 1, [[0] for _ in range(N)], 'array', False)
+            cw, cz, ce, cze = Cell(w), Cell(z), Cell(0), Cell(ze)
+            it.invoke(fds[0], [m, w, z, 0, ze], None, arg_cells=[Cell(m), cw, cz, ce, cze], targs=[DOUBLE, DOUBLE, N])
+            return (ce.v, cze.v)
+        ps = it.run_paths(thunk, max_paths=400)
+        ctx.merge_rules(it)
+        absz = lambda t: z3.If(t >= 0, t, -t)
+        norm = absz(W[0])
+        for i in range(1, N):
+            norm = z3.If(absz(W[i]) > norm, absz(W[i]), norm)
+        for k, (s, r, e) in enumerate(ps):
+            if e is not None:
+                ctx.record('path%d' % k, FAILED, 'B', 0, 'exception %s' % e)
+                continue
+            _errbd_claims(ctx, 'path%d' % k, pre + list(s.pc), r[0], [('z_errbd', r[1])], norm)
+            ctx.sides('path%d' % k, s, pre)
+        ctx.record('paths', PROVED if ps else FAILED, 'B', 0, '%d paths' % len(ps))
+    return ob
+
+make_herm_errbd(2)
+make_herm_errbd(3)
+
+def make_svd_errbd(M, N):
+    @obligation('C12.errbd.fs_svd.%dx%d' % (M, N), fns=[(LA, 'fs_svd'), (LA, 'fs_svd_errbd'), (LA, 'reorder_svd_errbd'), (LA, 'svd_errbd'), (LA, 'disna')], replay=lambda m_, wd: errbd_replay(m_, wd))
+    def ob(ctx):
+        """requires (contract of svd_eigen): S_0 >= S_1 >= ... >= 0.  ensures: s_errbd == EPS S_0 >= 0, every u_errbd(i), v_errbd(i) in [0, 1] (finite, non-negative)"""
+        K = min(M, N)
+        U, Vh = cm('U', M, M), cm('V', N, N)
+        S = [z3.Real('S%d' % i) for i in range(K)]
+        pre = [S[i] >= S[i + 1] for i in range(K - 1)] + [S[K - 1] >= 0]
+        mfull = mat_mul(mat_mul(U, diag(S, True)), Vh)
+        it = Interp(ctx.w, mode='sym', stubs={'svd_eigen': svd_stub(U, S, Vh)}, assumptions=pre, div_sides=True)
+        fds = [f for f in ctx.w.find('fs_svd', LA) if len(f.params) == 7 and len(f.template or []) == 4]
+        if len(fds) != 1:
+            ctx.record('extraction', ERROR, 'B', 0, '%d overloads of fs_svd with error bounds' % len(fds))
+            return
+        def thunk():
+            s = Mat(K, 1, [[0] for _ in range(K)], 'array', False)
+            u, v = cm('uu', M, M), cm('vv', N, N)
+            ue, ve = Mat(K, 1, [[0] for _ in range(K)], 'array', False), Mat(K, 1, [[0] for _ in range(K)], 'array', False)
+            cells = [Cell(mfull), Cell(s), Cell(u), Cell(v), Cell(0), Cell(ue), Cell(ve)]
+            it.invoke(fds[0], [c.v for c in cells], None, arg_cells=cells, targs=[DOUBLE, CPLX, M, N])
+            return (cells[4].v, cells[5].v, cells[6].v)
+        ps = it.run_paths(thunk, max_paths=400)
+        ctx.merge_rules(it)
+        for k, (sy, r, e) in enumerate(ps):
+            if e is not None:
+                ctx.record('path%d' % k, FAILED, 'B', 0, 'exception %s' % e)
+                continue
+            _errbd_claims(ctx, 'path%d' % k, pre + list(sy.pc), r[0], [('u_errbd', r[1]), ('v_errbd', r[2])], S[0])
+            ctx.sides('path%d' % k, sy, pre)
+        ctx.record('paths', PROVED if ps else FAILED, 'B', 0, '%d paths' % len(ps))
+    return ob
+
+make_svd_errbd(2, 2)
+make_svd_errbd(3, 3)
+
+def make_takagi_errbd(N):
+    @obligation('C12.errbd.fs_diagonalize_symmetric.%dx%d' % (N, N), fns=[(LA, 'fs_diagonalize_symmetric'), (LA, 'fs_diagonalize_symmetric_errbd'), (LA, 'reorder_diagonalize_symmetric_errbd'),
+                                                                            (LA, 'diagonalize_symmetric_errbd'), (LA, 'diagonalize_hermitian_errbd'), (LA, 'disna')], replay=lambda m_, wd: errbd_replay(m_, wd))
+    def ob(ctx):
+        """requires (contract of hermitian_eigen for a real symmetric matrix): W ascending, any sign pattern.  ensures on every path: s_errbd == EPS max_i |W_i| >= 0 and every
+        u_errbd(i) in [0, 1]"""
+        Z, W = rm('Z', N, N), [z3.Real('W%d' % i) for i in range(N)]
+        pre = [W[i] <= W[i + 1] for i in range(N - 1)]
+        m = mat_mul(mat_mul(Z, diag(W, False)), Z.T())
+        it = Interp(ctx.w, mode='sym', stubs={'hermitian_eigen': herm_stub(Z, W)}, assumptions=pre, div_sides=True)
+        fds = [f for f in ctx.w.find('fs_diagonalize_symmetric', LA) if len(f.params) == 5]
+        fds = [f for f in fds if 'complex' not in str(f.params[0].type)] or fds
+        if len(fds) != 1:
+            ctx.record('extraction', ERROR, 'B', 0, '%d real overloads of fs_diagonalize_symmetric with error bounds' % len(fds))
+            return
+        def thunk():
+            s = Mat(N, 1, [[0] for _ in range(N)], 'array', False)
+            u = cm('uu', N, N)
+            ue = Mat(N, 1, [[0] for _ in range(N)], 'array', False)
+            cells = [Cell(m), Cell(s), Cell(u), Cell(0), Cell(ue)]
+            it.invoke(fds[0], [c.v for c in cells], None, arg_cells=cells, targs=[DOUBLE, DOUBLE, N])
+            return (cells[3].v, cells[4].v)
+        ps = it.run_paths(thunk, max_paths=2000)
+        ctx.merge_rules(it)
+        absz = lambda t: z3.If(t >= 0, t, -t)
+        norm = absz(W[0])
+        for i in range(1, N):
+            norm = z3.If(absz(W[i]) > norm, absz(W[i]), norm)
+        for k, (sy, r, e) in enumerate(ps):
+            if e is not None:
+                ctx.record('path%d' % k, FAILED, 'B', 0, 'exception %s' % e)
+                continue
+            _errbd_claims(ctx, 'path%d' % k, pre + list(sy.pc), r[0], [('u_errbd', r[1])], norm)
+            ctx.sides('path%d' % k, sy, pre)
+        ctx.record('paths', PROVED if ps else FAILED, 'B', 0, '%d paths' % len(ps))
+    return ob
+
+make_takagi_errbd(2)
+
+ERRBD_REPLAY = r'''
+#include "gm2_linalg.hpp"
+#include <cstdio>
+#include <cstdlib>
+#include <cmath>
+#include <limits>
+// error bounds of the REAL decomposition routines for matrices with prescribed eigen-/singular values (a fixed rotation of a diagonal matrix),
+// plus a fixed list of sign patterns: bounds must be finite, >= 0, vector bounds <= 1 (+rounding), value bound == EPS * ||m||_2 (to 1e-10 relative)
+template <int N> static Eigen::Matrix<double,N,N> rot() {
+   Eigen::Matrix<double,N,N> R = Eigen::Matrix<double,N,N>::Identity();
+   for (int i = 0; i < N; i++) for (int j = i + 1; j < N; j++) {
+      Eigen::Matrix<double,N,N> G = Eigen::Matrix<double,N,N>::Identity();
+      const double t = 0.3 + 0.5 * i + 0.2 * j; G(i,i) = std::cos(t); G(j,j) = std::cos(t); G(i,j) = -std::sin(t); G(j,i) = std::sin(t);
+      R = R * G;
+   }
+   return R;
+}
+static int bad = 0;
+static void chk(const char* what, bool ok, double v) { if (!ok) { bad++; std::printf("BAD %s = %.17g\n", what, v); } }
+template <int N> static void herm(const double* W) {
+   Eigen::Matrix<double,N,N> D = Eigen::Matrix<double,N,N>::Zero(); double nrm = 0;
+   for (int i = 0; i < N; i++) { D(i,i) = W[i]; nrm = std::fmax(nrm, std::fabs(W[i])); }
+   const Eigen::Matrix<double,N,N> m = rot<N>() * D * rot<N>().transpose();
+   Eigen::Array<double,N,1> w, ze; Eigen::Matrix<double,N,N> z; double we = -1;
+   gm2calc::fs_diagonalize_hermitian<double,double,N>(m, w, z, we, ze);
+   const double eps = std::numeric_limits<double>::epsilon();
+   chk("w_errbd finite and >= 0", std::isfinite(we) && we >= 0, we);
+   chk("w_errbd == EPS ||m||", std::fabs(we - eps * nrm) <= 1e-10 * eps * nrm + 1e-300, we);
+   for (int i = 0; i < N; i++) chk("z_errbd(i) in [0,1]", std::isfinite(ze(i)) && ze(i) >= 0 && ze(i) <= 1 + 1e-10, ze(i));
+   Eigen::Array<double,N,1> s, ue; Eigen::Matrix<std::complex<double>,N,N> u; double se = -1;
+   gm2calc::fs_diagonalize_symmetric<double,double,N>(m, s, u, se, ue);
+   chk("s_errbd (Takagi) finite and >= 0", std::isfinite(se) && se >= 0, se);
+   chk("s_errbd (Takagi) == EPS ||m||", std::fabs(se - eps * nrm) <= 1e-10 * eps * nrm + 1e-300, se);
+   for (int i = 0; i < N; i++) chk("u_errbd(i) (Takagi) in [0,1]", std::isfinite(ue(i)) && ue(i) >= 0 && ue(i) <= 1 + 1e-10, ue(i));
+}
+template <int N> static void svd(const double* S) {
+   Eigen::Matrix<std::complex<double>,N,N> D = Eigen::Matrix<std::complex<double>,N,N>::Zero(); double nrm = 0;
+   for (int i = 0; i < N; i++) { D(i,i) = S[i]; nrm = std::fmax(nrm, std::fabs(S[i])); }
+   const Eigen::Matrix<std::complex<double>,N,N> m = rot<N>().template cast<std::complex<double> >() * D * rot<N>().transpose().template cast<std::complex<double> >() * std::complex<double>(0.6, 0.8);
+   Eigen::Array<double,N,1> s, ue, ve; Eigen::Matrix<std::complex<double>,N,N> u, v; double se = -1;
+   gm2calc::fs_svd<double,std::complex<double>,N,N>(m, s, u, v, se, ue, ve);
+   const double eps = std::numeric_limits<double>::epsilon();
+   chk("s_errbd finite and >= 0", std::isfinite(se) && se >= 0, se);
+   chk("s_errbd == EPS ||m||", std::fabs(se - eps * nrm) <= 1e-10 * eps * nrm + 1e-300, se);
+   for (int i = 0; i < N; i++) { chk("u_errbd(i) in [0,1]", std::isfinite(ue(i)) && ue(i) >= 0 && ue(i) <= 1 + 1e-10, ue(i)); chk("v_errbd(i) in [0,1]", std::isfinite(ve(i)) && ve(i) >= 0 && ve(i) <= 1 + 1e-10, ve(i)); }
+}
+int main(int argc, char** argv) {
+   double v[4] = {0, 0, 0, 0};
+   for (int i = 0; i < 4 && i + 1 < argc; i++) v[i] = std::atof(argv[i + 1]);
+   if (argc > 1) { herm<2>(v); herm<3>(v); double a[3] = {std::fabs(v[0]), std::fabs(v[1]), std::fabs(v[2])}; svd<2>(a); svd<3>(a); }
+   const double pats[][3] = {{-3, -1, -0.5}, {-3, -1, 2}, {-2, 0, 0}, {0, 0, 0}, {1, 1, 1}, {-1e-8, 2, 5}, {-7, -7, 1}, {1e-12, 1, 1e6}, {-1e6, -1, -1e-12}, {-5, 1, 3}};
+   for (auto& p : pats) { herm<2>(p); herm<3>(p); double a[3] = {std::fabs(p[0]), std::fabs(p[1]), std::fabs(p[2])}; svd<2>(a); svd<3>(a); }
+   std::printf("%d error bounds out of contract\n", bad);
+   return bad ? 1 : 0;
+}
+'''
+
+def errbd_replay(model, wd):
+    from gm2v import native
+    import subprocess
+    f = (model or {}).get('_float', {})
+    vals = [f.get('W%d' % i, f.get('S%d' % i)) for i in range(3)]
+    args = ['%r' % float(v) for v in vals if v is not None]
+    repo = native.REPO
+    src = os.path.join(wd, 'errbd.cpp')
+    open(src, 'w').write(ERRBD_REPLAY)
+    exe = os.path.join(wd, 'errbd.x')
+    r = subprocess.run(['g++'] + native.CXXFLAGS + native.includes(repo) + [src, '-o', exe], capture_output=True, text=True)
+    if r.returncode != 0:
+        return None, 'replay build failed: ' + r.stderr[-800:]
+    r = subprocess.run([exe] + args, capture_output=True, text=True, timeout=120)
+    return r.returncode == 1, ('arguments %s: ' % args) + r.stdout.strip()[-1500:]
+import os
